@@ -18,7 +18,7 @@ From Sylt Require Import Back.IR Back.Emit Back.ScopeProofs.
 From Sylt Require Import Pres.EmitAst Pres.EmitRel Pres.Names Pres.LuaFuel Pres.LuaEv Pres.Preamble Pres.Tie.
 From Sylt Require Import Pres.Frag.
 From Sylt Require Import Pres.SimDefs Pres.SimOps Pres.SimVals.
-From Sylt Require Import Pres.SimExpr Pres.LowerShape Pres.SimSteps Pres.SimFun Pres.SimExprProofs Pres.SimEcall Pres.NoExit Pres.SimStmt Pres.SimCall.
+From Sylt Require Import Pres.SimExpr Pres.LowerShape Pres.SimSteps Pres.SimFun Pres.SimExprProofs Pres.SimEcall Pres.NoExit Pres.SimStmt Pres.SimCall Pres.SimApply.
 From Sylt Require Pres.SemSane.
 From Sylt Require Import Pres.RunEq.
 From Sylt Require Import Lua.LuaAst Lua.LuaMap Lua.LuaNum Lua.LuaProofs Lua.LuaCore.
